@@ -279,3 +279,34 @@ FACETS.append(Facet('torch/map-histories', f_history, strategy=lambda t: st_hist
 from checks import large as _large
 FACETS.append(Facet('np/large-N', _large.f_algebra_large, strategy=lambda t: _large.st_algebra('np', ['compose', 'inverse'], sizes=(12, 31, 32, 33, 64, 65)), examples={'quick': 40, 'thorough': 2000}))
 FACETS.append(Facet('torch/large-N', _large.f_algebra_large, strategy=lambda t: _large.st_algebra('torch', ['compose', 'inverse'], sizes=(12, 31, 33)), examples={'quick': 8, 'thorough': 300}, backend='torch'))
+
+
+# ---- binary tables stored in other array types (bool, int8, uint8, int32, float): the group laws do not depend on the storage type of gs
+def f_dtype(case):
+    N = case['N']
+    a, b = C.dec_clifford(case['a']), C.dec_clifford(case['b'])
+    dt = getattr(np, case['dtype'])
+    sm = B.NP.mods()['s']
+
+    def mk(c):
+        base = B.np_map(c)
+        return sm.CliffordMap(np.asarray(base.gs).astype(dt), np.asarray(base.ps).copy())
+    A, Bm = mk(a), mk(b)
+    sa, sb = B.snapshot(A), B.snapshot(Bm)
+    got = _read_map(B.NP, A.compose(Bm))
+    check(_eq(got, a.compose(b)), 'compose of maps with %s tables = %s expected %s' % (case['dtype'], got.rows(), a.compose(b).rows()), 'dtype-compose')
+    gi = _read_map(B.NP, A.inverse())
+    check(_eq(gi, a.inverse()), 'inverse of a map with a %s table = %s expected %s' % (case['dtype'], gi.rows(), a.inverse().rows()), 'dtype-inverse')
+    idn = _read_map(B.NP, A.compose(A.inverse()))
+    check(_eq(idn, ref.RefClifford.identity(N)), 'a . a^-1 is not the identity for a %s table' % case['dtype'], 'dtype-inverse')
+    check(B.snapshot(A) == sa and B.snapshot(Bm) == sb, 'operands changed', 'operand-modified')
+    L, K = ref.parse_list(case['ops'])
+    x = B.np_list(L, K).transform_by(A)
+    C.expect_list(B.read_list(x), a.apply(L, K), 'transform_by a map with a %s table' % case['dtype'], 'dtype-action')
+    ny = int(((a.L == 2).sum(-1) >= 2).any())
+    return {'nt': bool(ny) and N >= 2, 'labels': ['N=%d' % N, case['dtype']]}
+
+
+FACETS.append(Facet('np/table-dtypes', f_dtype, strategy=lambda t: st.integers(1, 4).flatmap(lambda N: st.fixed_dictionaries(
+    {'N': st.just(N), 'a': gen.st_clifford_rows(N), 'b': gen.st_clifford_rows(N), 'dtype': st.sampled_from(['bool_', 'int8', 'uint8', 'int32', 'float64', 'bool_']),
+     'ops': st.lists(gen.st_pauli(N), min_size=1, max_size=4)})), examples={'quick': 400, 'thorough': 15000}, shards={'quick': 1, 'thorough': 4}))
